@@ -160,8 +160,15 @@ impl DnsCache {
         let hostname_lower = host.to_lowercase();
         let mut result = HashMap::new();
 
+        // Expired records are evicted at the end of a run-loop iteration: when the
+        // daemon wakes up late, some may still be here.
+        let now = current_time_millis();
+
         if let Some(records) = self.addr.get(&hostname_lower) {
-            for record in records {
+            for record in records
+                .iter()
+                .filter(|r| !r.record.get_record().is_expired(now))
+            {
                 if let Some(dns_addr) = record.record.any().downcast_ref::<DnsAddress>() {
                     let record_name = record.record.get_name().to_string();
                     let address = dns_addr.address();
